@@ -38,6 +38,15 @@ func CheckElem(t *testing.T, c ElemCase) error {
 	if c.Elem == "empty" {
 		return checkElemT(t, c, func(p, s int) struct{} { return struct{}{} }, nil)
 	}
+	if c.Elem == "iface" {
+		// interface values, some of them nil: only the counts are checked
+		return checkElemT(t, c, func(p, s int) any {
+			if s%3 == 1 {
+				return nil
+			}
+			return s
+		}, nil)
+	}
 	return checkElemT(t, c, func(p, s int) wideItem { return wideItem{p: p, s: s} }, func(w wideItem) (int, int) { return w.p, w.s })
 }
 
@@ -189,7 +198,7 @@ func GenElem(thorough bool) *rapid.Generator[ElemCase] {
 		c := ElemCase{
 			Ver:    pick(t, "ver", 1, 2),
 			Simple: rapid.Bool().Draw(t, "simple"),
-			Elem:   pick(t, "elem", "empty", "empty", "wide"),
+			Elem:   pick(t, "elem", "empty", "empty", "wide", "iface"),
 			Rate:   rapid.Bool().Draw(t, "rate"),
 			Cap:    pick(t, "cap", 0, 1, 4, 32),
 		}
